@@ -106,10 +106,15 @@ def render_value(v, conv, spec):
         v = v2
     if isinstance(v, SymBool):
         v = bool(v)
+    if hasattr(type(v), "__sym_str__") and not hasattr(type(v), "__sym_format__") and spec in ("", "s"):
+        v = v.__sym_str__()
     if conv not in (None, "s", "r") and conv != -1:
         raise Unsupported("conversion !%s" % conv)
     if conv == "r" and is_sym(v):
         raise Unsupported("repr of a symbolic value")
+    if hasattr(type(v), "__sym_format__") and conv is None:
+        r = v.__sym_format__(spec)
+        return list(r.items) if isinstance(r, SymSeq) else list(str(r).encode("utf-8"))
     if not is_sym(v):
         if conv == "r":
             v = repr(v)
@@ -208,7 +213,7 @@ def _get_field(field, args, kwargs):
 
 def fstr(parts):
     """parts: list of ('l', text) | ('v', value, conversion, spec)"""
-    if not any(p[0] == "v" and (is_sym(p[1]) or is_sym(p[3])) for p in parts):
+    if not any(p[0] == "v" and (is_sym(p[1]) or is_sym(p[3]) or hasattr(type(p[1]), "__sym_format__") or hasattr(type(p[1]), "__sym_str__")) for p in parts):
         out = []
         for p in parts:
             if p[0] == "l":
